@@ -347,3 +347,20 @@ Definition tg_align (g : tg) (n : text) (d : Z) : res tg :=
       if too_close d (tl refs) then Err ArgumentError
       else fold_res (align_one n refs d) (tiers g) g
   end.
+
+(* ---------------- Textgrid.mergeTiers ---------------- *)
+
+Definition fold_union_i (l : list itier) : res (option itier) :=
+  match l with [] => Ok None | a :: r => do x <- fold_res union_i r a; Ok (Some x) end.
+Definition fold_union_p (l : list ptier) : res (option ptier) :=
+  match l with [] => Ok None | a :: r => do x <- fold_res union_p r a; Ok (Some x) end.
+
+Definition tg_merge (g : tg) (sel : option (list text)) (keep : bool) : res tg :=
+  let sel := match sel with Some l => l | None => names g end in
+  do ts <- mapM (fun n => match find_tier n (tiers g) with Some t => Ok t | None => Err PyError end) sel;
+  do it <- fold_union_i (filter_map (fun t => match t with TI x => Some x | TP _ => None end) ts);
+  do pt <- fold_union_p (filter_map (fun t => match t with TP x => Some x | TI _ => None end) ts);
+  let others := if keep then filter (fun t => negb (name_in (tname t) sel)) (tiers g) else [] in
+  add_all (mkTG [] (tgmin g) (tgmax g))
+          (others ++ match it with Some x => [TI x] | None => [] end ++ match pt with Some x => [TP x] | None => [] end)
+          RWarning.
